@@ -260,6 +260,14 @@ def run(tier, seed):
             if n % 15000 == 9:
                 run.sample({k: case[k] for k in ("mode", "arg", "col", "hist", "note")})
             n += 1
+        # beyond the exhaustive bound: accessor histories of 4..8 writes
+        sres, vals = engine.simulate_cases(work, "MC_C13", {"Full": "TRUE", "MaxSet": 8}, num=(3 if tier == "quick" else 100), depth=10,
+                                           seed=seed + 1, init="InitAcc")
+        run.add_tlc(sres, "accessor histories of 4-8 writes by TLC -simulate (%d behaviours)" % sres["behaviours"])
+        sim = [{"mode": "acc", "arg": v[1], "col": v[2], "hist": v[3], "note": v[4], "hslv": v[5], "n": i} for i, v in enumerate(vals)]
+        for case, r in engine.replay("harness.c13", sim, chunk=500):
+            run.record(case, r, key="acc:%s:%s" % (case["arg"], case["hist"]))
+        bymode["acc_simulated"] = len(sim)
         run.extra["cases_by_mode"] = bymode
         run.extra["exhaustive"] = True
     finally:
